@@ -34,16 +34,16 @@ def _gen(ctx, out, module, consts, **kw):
 
 
 def run(ctx):
-    ctx.tlc_mc("data", "ArgsMapMC", consts={"MAXLEN": ctx.pick(3, 4)}, workers=8, timeout=900)
+    ctx.tlc_mc("data", "ArgsMapMC", consts={"MAXLEN": ctx.pick(3, 4)}, workers=4, timeout=900)
     path = os.path.join(ctx.scratch, "c28_behaviours.ndjson")
     out = open(path, "w")
     # exhaustive: every operation sequence of length N over the profile's op alphabet
     plans = ctx.pick([(3, 1)], [(3, 2), (4, 3)])
     total_exh = 0
     for n, prof in plans:
-        total_exh += _gen(ctx, out, "ArgsMapGen", {"N": n, "PROFILE": prof}, workers=8)
+        total_exh += _gen(ctx, out, "ArgsMapGen", {"N": n, "PROFILE": prof}, workers=4)
     # seeded random longer sequences
-    num, depth = ctx.pick((1000, 10), (40000, 12))
+    num, depth = ctx.pick((1000, 10), (20000, 12))
     nsim = _gen(ctx, out, "ArgsMapGen", {"N": depth, "PROFILE": 2}, workers=1,
                 simulate="num=%d" % num, depth=depth + 1, args=["-seed", str(ctx.seed)])
     out.close()
